@@ -88,6 +88,14 @@ def cache_helpers(G):
             for x in walk(f):
                 if x.get('kind') == 'VarDecl' and 'init' in x and mentions_cache(G, u, kids(x)[-1], ids | derived):
                     derived.add(x['id'])
+            # a local (or a member of a local pair / struct) assigned from the cache holds what the cache holds
+            for x in walk(f):
+                if x.get('kind') == 'BinaryOperator' and x.get('opcode') == '=' and mentions_cache(G, u, kids(x)[1], ids | derived):
+                    root = peel(kids(x)[0])
+                    while root is not None and root.get('kind') == 'MemberExpr' and kids(root):
+                        root = peel(kids(root)[0])
+                    if root is not None and root.get('kind') == 'DeclRefExpr' and (root.get('referencedDecl') or {}).get('kind') == 'VarDecl':
+                        derived.add(root['referencedDecl'].get('id'))
             rets = [kids(x)[0] for x in walk(f) if x.get('kind') == 'ReturnStmt' and kids(x)]
             # pointer parameters through which only cache-derived values are handed back
             from ..frontend import params_of as _po
@@ -104,6 +112,21 @@ def cache_helpers(G):
     return H
 
 
+def call_targets(G, x):
+    """Keys of the library functions a call expression resolves to (free functions and member functions alike)."""
+    if G is None or x.get('kind') not in ('CallExpr', 'CXXMemberCallExpr', 'CXXOperatorCallExpr'):
+        return ()
+    c = callee(x)
+    if not c:
+        return ()
+    if c[0] == 'fn' and c[1].get('_qn'):
+        return tuple(G.resolve_decl(c[1]))
+    if c[0] == 'method':
+        d = x['_u'].by_id.get(c[3]) if c[3] else None
+        return tuple(G.resolve_decl(d)) if d is not None and d.get('_qn') else ()
+    return ()
+
+
 def mentions_cache(G, u, e, ids):
     """Does expression e name the cache map, a local derived from it (ids), or call a helper
     whose result derives from the cache?"""
@@ -111,12 +134,10 @@ def mentions_cache(G, u, e, ids):
     for x in walk(e):
         if x.get('kind') == 'DeclRefExpr' and (x.get('referencedDecl') or {}).get('id') in ids:
             return True
-        if H and x.get('kind') == 'CallExpr':
-            c = callee(x)
-            if c and c[0] == 'fn' and c[1].get('_qn'):
-                for t in G.resolve_decl(c[1]):
-                    if t in H and H[t]['returns_cache']:
-                        return True
+        if H and x.get('kind') in ('CallExpr', 'CXXMemberCallExpr'):
+            for t in call_targets(G, x):
+                if t in H and H[t]['returns_cache']:
+                    return True
     return False
 
 
@@ -155,15 +176,13 @@ def map_access(node, G=None):
             break
         if k in ('BinaryOperator', 'DeclStmt', 'CompoundStmt', 'IfStmt', 'ReturnStmt'):
             break
-    if G is not None and node.get('kind') == 'CallExpr':
-        c = callee(node)
-        if c and c[0] == 'fn' and c[1].get('_qn'):
-            H = cache_helpers(G)
-            for t in G.resolve_decl(c[1]):
-                if t in H:
-                    for kind in ('erase', 'write', 'read'):
-                        if kind in H[t]['kinds']:
-                            return (kind, node)
+    if G is not None and node.get('kind') in ('CallExpr', 'CXXMemberCallExpr'):
+        H = cache_helpers(G)
+        for t in call_targets(G, node):
+            if t in H:
+                for kind in ('erase', 'write', 'read'):
+                    if kind in H[t]['kinds']:
+                        return (kind, node)
     return None
 
 
@@ -315,8 +334,10 @@ def run(ctx):
         fixed_ok = False
         for (k, site) in steps:
             u, f = G.defs[k]
-            fs = ctx.facts(f).facts_at_ast(site)
+            Ff_ = ctx.facts(f)
+            fs = Ff_.facts_at_ast(site)
             for (op, a, b) in (fs or ()):
+                a, b = Ff_.resolve_key(a), Ff_.resolve_key(b)      # (the result may have been named first)
                 if op == '==' and b == 'n:0' and a.startswith('cctz::FixedOffsetFromName(') or \
                         op == '==' and a == 'n:0' and b.startswith('cctz::FixedOffsetFromName('):
                     fixed_ok = True
